@@ -17,17 +17,15 @@ Model: `JaqalModel/Model/Builder.lean`; declarative specification: `ValOK`, `Arg
 * `C14_known_when_known_*`: which positions are NOT checked when the circuit is built because their value is a
   let-constant (they are checked when `fill_in_let` rebuilds the circuit — another component), and which are.
 * `C14_precedence_*`: gate tables — injected gates win over imported ones, a later import wins over an earlier one.
-* `C14_sound_parser`: for parser-shaped input (`ParserShaped`, every header statement before every body statement —
-  what the grammar enforces) the accepted circuit moreover satisfies `NamesValid`: constant / register / alias names are
-  pairwise distinct; macro names are distinct from each other and from the native gates; every gate statement's
-  definition (in the body and in macro bodies) is a native gate of the circuit, a macro of the circuit, or — only when
-  no gate set is in force — an anonymous definition `p0…p{n-1}`. (`C14_names_distinct` holds for every input.)
-* `C14_sound_full` (a definition) is the same for ALL S-expressions. Its clause "every definition is a native gate …"
-  is FALSE for the code as it is, for hand-made S-expressions only: a `usepulses` child that comes after a gate
-  statement replaces, in `native_gates`, the definition the earlier statement stays bound to
-  (`C14_stale_definition_handmade`: `usepulses a; register r[2]; X r[0]; usepulses b` is accepted and its `X r[0]` calls
-  module `a`'s `X`, which is not among the circuit's native gates; observed on the real builder). The parser cannot
-  produce such input, so `C14_sound_parser` is the theorem.
+* **`C14_sound_all`** (= `C14_sound_full`): for EVERY S-expression the accepted circuit moreover satisfies `NamesValid`:
+  constant / register / alias names are pairwise distinct; macro names are distinct from each other and from the native
+  gates; every gate statement's definition (in the body and in macro bodies) is a native gate of the circuit, a macro of
+  the circuit, or — only when no gate set is in force — an anonymous definition `p0…p{n-1}`. The gate-table clause rests
+  on `build_circuit` refusing to load pulse definitions after the first gate or macro (`GInv` in `BuilderNames.lean`).
+  `C14_sound_parser` is the special case of parser-shaped input, kept for reference.
+* `C14_stale_definition_handmade` documents what that refusal fixed: in the old mode (`buildNoReset`)
+  `usepulses a; register r[2]; X r[0]; usepulses b` was accepted with its `X r[0]` bound to module `a`'s `X`, which is
+  not among the circuit's native gates.
 -/
 namespace Jaqal.Builder
 open Jaqal
@@ -103,8 +101,7 @@ structure NamesValid (cfg : Config) (c : Circuit) : Prop where
     gd ∈ c.natives ∨ (∃ m ∈ c.macros, gd = defOfMacro m) ∨
       (cfg.anonymousAllowed = true ∧ gd = anonDef gd.name gd.params.length)
 
-/-- The full statement of the builder part of C14, for all S-expressions. False for hand-made input with a `usepulses`
-child after a gate statement (see the module comment); proved for parser-shaped input below. -/
+/-- The full statement of the builder part of C14, for all S-expressions (proved below as `C14_sound_all`). -/
 def C14_sound_full : Prop :=
   ∀ (cfg : Config) (sx : Sx) (c : Circuit), parseBuild cfg sx = .ok c →
     RefsValid c ∧ (c.registers.filter isFundamental).length ≤ 1 ∧ NamesValid cfg c
@@ -127,10 +124,68 @@ theorem C14_names_distinct (cfg : Config) (e : BSx) (c : Circuit) (h : build cfg
 theorem anonDef_params_length (n : String) (k : Nat) : (anonDef n k).params.length = k := by
   simp [anonDef]
 
-/-- **C14 (builder part), with the name clauses, for everything the parser can produce.** -/
-theorem C14_sound_parser (cfg : Config) (sx : Sx) (c : Circuit) (hp : ParserShaped (BSx.ofSx sx))
-    (h : parseBuild cfg sx = .ok c) :
-    RefsValid c ∧ (c.registers.filter isFundamental).length ≤ 1 ∧ NamesValid cfg c := by
+/-- the name clauses for `circuitbuilder.build` on ANY S-expression: a `usepulses` statement can load gates only while
+no statement and no macro has been built, so the definitions gate statements are bound to are never replaced -/
+theorem C14_names_build (cfg : Config) (e : BSx) (c : Circuit) (hb : build cfg e = .ok c) : NamesValid cfg c := by
+  have hnames := C14_names_distinct cfg _ _ hb
+  unfold build buildWith at hb
+  obtain ⟨inject, hinj, h1⟩ := bind_ok hb
+  unfold buildCore at h1
+  split at h1
+  · rename_i children
+    obtain ⟨acc, hloop, h3⟩ := bind_ok h1
+    simp only [pure, Except.pure] at h3
+    cases h3
+    have hnat : NatOK (inject.getD []) := by
+      unfold Config.inject at hinj
+      cases hn : cfg.natives with
+      | none => simp [hn, pure, Except.pure] at hinj; subst hinj; exact ⟨fun p hp => (by cases hp), by simp⟩
+      | some gs =>
+        simp only [hn] at hinj
+        obtain ⟨d, hd, h4⟩ := bind_ok hinj
+        simp only [pure, Except.pure] at h4
+        cases h4
+        exact normNatives_natOK hd
+    have hBI : GInv cfg acc := by
+      refine circuitLoop_general (by decide) children _ acc ?_ hloop
+      refine ⟨HInv.toBInv ?_, fun _ _ => ?_⟩ <;> exact ⟨rfl, rfl, rfl, rfl, hnat⟩
+    have hBI := hBI.b
+    refine ⟨hnames, ?_, ?_⟩
+    · have : (acc.toCircuit.natives.map (·.name)) = acc.natives.map (·.1) := by
+        simp only [Acc.toCircuit, List.map_map]
+        apply List.map_congr_left
+        intro p hp
+        exact hBI.nat.keys p hp
+      show (acc.macros.map (·.name) ++ acc.toCircuit.natives.map (·.name)).Nodup
+      rw [this]; exact hBI.mnames
+    · intro gd hgd
+      have hk : GKnown acc.st.gctx gd := by
+        rcases List.mem_append.1 hgd with hgd | hgd
+        · simp only [Acc.toCircuit, gateDefsOf] at hgd
+          obtain ⟨s, hs, hg⟩ := mem_gateDefsOfList.1 hgd
+          exact hBI.stmts s hs gd hg
+        · simp only [Acc.toCircuit, List.mem_flatten, List.mem_map] at hgd
+          obtain ⟨l, ⟨m, hm, rfl⟩, hg⟩ := hgd
+          exact hBI.macros m hm gd hg
+      obtain ⟨e, hl, hd⟩ := hk
+      rcases hBI.shape _ e hl with ⟨g, rfl, hm⟩ | ⟨m, hm, rfl⟩ | ⟨ha, k, rfl⟩
+      · left
+        simp only [GEntry.toDef] at hd
+        subst hd
+        exact List.mem_map.2 ⟨_, hm, rfl⟩
+      · right; left
+        exact ⟨m, hm, hd.symm⟩
+      · right; right
+        refine ⟨ha, ?_⟩
+        simp only [GEntry.toDef] at hd
+        rw [← hd]
+        simp [anonDef]
+  · obtain ⟨_, _, h2⟩ := bind_ok h1
+    simp [throw_eq] at h2
+
+/-- **C14 (builder part), complete, for every S-expression** (`Sx` has no embedded objects). -/
+theorem C14_sound_all : C14_sound_full := by
+  intro cfg sx c h
   obtain ⟨hrefs, hone⟩ := C14_sound cfg sx c h
   refine ⟨hrefs, hone, ?_⟩
   unfold parseBuild at h
@@ -141,62 +196,12 @@ theorem C14_sound_parser (cfg : Config) (sx : Sx) (c : Circuit) (hp : ParserShap
     · simp [throw_eq] at h2
     · simp only [pure, Except.pure] at h2; cases h2; rfl
   subst hcc
-  have hnames := C14_names_distinct cfg _ _ hb
-  obtain ⟨hdr, body, he, hh, hbd⟩ := hp
-  rw [he] at hb
-  unfold build buildWith at hb
-  obtain ⟨inject, hinj, h1⟩ := bind_ok hb
-  unfold buildCore at h1
-  simp only [] at h1
-  obtain ⟨acc, hloop, h3⟩ := bind_ok h1
-  simp only [pure, Except.pure] at h3
-  cases h3
-  rw [circuitLoop_append] at hloop
-  obtain ⟨accH, hH, hB⟩ := bind_ok hloop
-  have hnat : NatOK (inject.getD []) := by
-    unfold Config.inject at hinj
-    cases hn : cfg.natives with
-    | none => simp [hn, pure, Except.pure] at hinj; subst hinj; exact ⟨fun p hp => (by cases hp), by simp⟩
-    | some gs =>
-      simp only [hn] at hinj
-      obtain ⟨d, hd, h4⟩ := bind_ok hinj
-      simp only [pure, Except.pure] at h4
-      cases h4
-      exact normNatives_natOK hd
-  have hHI : HInv accH := by
-    refine circuitLoop_header hdr _ accH ?_ hh hH
-    exact ⟨rfl, rfl, rfl, rfl, hnat⟩
-  have hBI : BInv cfg acc := circuitLoop_body body accH acc hHI.toBInv hbd hB
-  refine ⟨hnames, ?_, ?_⟩
-  · have : (acc.toCircuit.natives.map (·.name)) = acc.natives.map (·.1) := by
-      simp only [Acc.toCircuit, List.map_map]
-      apply List.map_congr_left
-      intro p hp
-      exact hBI.nat.keys p hp
-    show (acc.macros.map (·.name) ++ acc.toCircuit.natives.map (·.name)).Nodup
-    rw [this]; exact hBI.mnames
-  · intro gd hgd
-    have hk : GKnown acc.st.gctx gd := by
-      rcases List.mem_append.1 hgd with hgd | hgd
-      · simp only [Acc.toCircuit, gateDefsOf] at hgd
-        obtain ⟨s, hs, hg⟩ := mem_gateDefsOfList.1 hgd
-        exact hBI.stmts s hs gd hg
-      · simp only [Acc.toCircuit, List.mem_flatten, List.mem_map] at hgd
-        obtain ⟨l, ⟨m, hm, rfl⟩, hg⟩ := hgd
-        exact hBI.macros m hm gd hg
-    obtain ⟨e, hl, hd⟩ := hk
-    rcases hBI.shape _ e hl with ⟨g, rfl, hm⟩ | ⟨m, hm, rfl⟩ | ⟨ha, k, rfl⟩
-    · left
-      simp only [GEntry.toDef] at hd
-      subst hd
-      exact List.mem_map.2 ⟨_, hm, rfl⟩
-    · right; left
-      exact ⟨m, hm, hd.symm⟩
-    · right; right
-      refine ⟨ha, ?_⟩
-      simp only [GEntry.toDef] at hd
-      rw [← hd]
-      simp [anonDef]
+  exact C14_names_build cfg _ _ hb
+
+/-- the special case of parser-shaped input, kept for reference -/
+theorem C14_sound_parser (cfg : Config) (sx : Sx) (c : Circuit) (_hp : ParserShaped (BSx.ofSx sx))
+    (h : parseBuild cfg sx = .ok c) :
+    RefsValid c ∧ (c.registers.filter isFundamental).length ≤ 1 ∧ NamesValid cfg c := C14_sound_all cfg sx c h
 
 /-- non-vacuity: the accepted example program above is parser-shaped -/
 example : ParserShaped (BSx.ofSx progOK) :=
@@ -223,7 +228,7 @@ theorem C14_checked_literal_index (nm r : String) (k i : Int)
 written (so `let n 3; register r[n]; g r[4]` is rejected although an override `n = 5` would make it valid). -/
 theorem C14_known_when_known_size (nm r n : String) (k i : Int) :
     (mkQubit nm (.regF r (.const n (.int k))) (.int i)).toOption.isSome = (decide (0 ≤ i) && decide (i < k)) := by
-  simp only [mkQubit, qubitCheck, bind, Except.bind, pure, Except.pure, regSize, Resolve.resolveSize, pyIntOfSize,
+  simp only [mkQubit, qubitCheck, indexIntegralCheck, indexRangeCheck, bind, Except.bind, pure, Except.pure, regSize, Resolve.resolveSize, pyIntOfSize,
     pyLt_int, pyLe_int]
   by_cases h1 : i < 0 <;> by_cases h2 : i < k <;>
     simp [h1, h2, isAV, throw_eq, Except.toOption] <;> omega
@@ -240,7 +245,7 @@ theorem C14_known_when_known_slice_source (nm r n : String) (k a b s : Int) (hs 
       = .ok (.regS nm (.regF r (.const n (.int k))) (.int a) (.int b) (.int s)) := by
   have hz : pyEq0 (.int s) = false := by simp [pyEq0, Val.toNum?, Num.veq, hs]
   have hlt : ¬ a < 0 := by omega
-  simp [mkSlice, sliceCheck, bind, Except.bind, pure, Except.pure, isAV, isIntLit, hz, pyLt_int, hlt, regSize,
+  simp [mkSlice, sliceCheck, sliceKnownCheck, bind, Except.bind, pure, Except.pure, isAV, isIntLit, hz, pyLt_int, hlt, regSize,
     Resolve.resolveSize]
 
 /-! ## Precedence of gate tables -/
@@ -343,7 +348,7 @@ def strayDefs (r : M Circuit) : Option (List GateDef) :=
 
 /-- The circuit is accepted, and its `X r[0]` is bound to module `a`'s `X`, which the second `usepulses` has replaced
 in the circuit's native gates: `C14_sound_full` fails on this (hand-made) input. -/
-theorem C14_stale_definition_handmade : strayDefs (parseBuild cfgTwo sxStale) = some [gA] := by decide
+theorem C14_stale_definition_handmade : strayDefs (buildNoReset cfgTwo (BSx.ofSx sxStale)) = some [gA] := by decide
 
 end Jaqal.Builder
 
@@ -351,6 +356,8 @@ end Jaqal.Builder
 #print axioms Jaqal.Builder.C14_sound_build
 #print axioms Jaqal.Builder.C14_names_distinct
 #print axioms Jaqal.Builder.C14_sound_parser
+#print axioms Jaqal.Builder.C14_names_build
+#print axioms Jaqal.Builder.C14_sound_all
 #print axioms Jaqal.Builder.C14_stale_definition_handmade
 #print axioms Jaqal.Builder.C14_known_when_known_index
 #print axioms Jaqal.Builder.C14_checked_literal_index
